@@ -19,9 +19,11 @@ WIDTH_CTX = ["stmt", "stmt_nested", "linecomment", "linecomment_tab", "eol_comme
              "line_ending_in_splice", "two_long_lines_in_prototype"]
 LINES_CTX = ["plain", "with_decls", "with_blocks", "second_function", "nested_blocks", "wrapped_call2", "wrapped_call3",
              "wrapped_condition", "wrapped_assign_in_block", "else_chain"]
-COUNT_CTX = {"funcs": ["plain", "with_protos", "with_globals"],
-             "params": ["definition", "prototype", "static_definition", "second_function", "header_prototype", "pointer_params"],
-             "vars": ["plain", "with_array", "second_function", "with_pointers", "after_five_line_function"]}
+COUNT_CTX = {"funcs": ["plain", "with_protos", "with_globals", "static_functions", "alternating_static"],
+             "params": ["definition", "prototype", "static_definition", "second_function", "header_prototype", "pointer_params",
+                        "funcptr_param", "const_first", "multiline_definition", "array_params", "static_prototype"],
+             "vars": ["plain", "with_array", "second_function", "with_pointers", "after_five_line_function", "static_locals",
+                      "mixed_types"]}
 
 
 def chunks(tier):
@@ -307,7 +309,7 @@ def build(limit, ctx, n, ex):
         for i in range(n):
             if i:
                 b.add("\n")
-            b.add("int\t")
+            b.add("static int\t" if (ctx == "static_functions" or (ctx == "alternating_static" and i % 2)) else "int\t")
             b.ident(4)
             b.add("(void)\n{\n\treturn (%d);\n}\n" % i)
         return name, b.items, [("TOO_MANY_FUNCS", None, n > 5)], None
@@ -325,6 +327,41 @@ def build(limit, ctx, n, ex):
                         b.add(", ")
                     b.add("char *")
                     b.ident(1)
+        if ctx == "funcptr_param":
+            def plist():      # noqa: F811
+                b.add("int (*cb)(int, int)")      # ONE parameter although it contains a comma
+                for i in range(1, n):
+                    b.add(", int ")
+                    b.ident(1)
+        if ctx == "const_first":
+            def plist():      # noqa: F811
+                for i in range(n):
+                    if i:
+                        b.add(", ")
+                    b.add("const int " if i == 0 else "int ")
+                    b.ident(1)
+        if ctx == "array_params":
+            def plist():      # noqa: F811
+                for i in range(n):
+                    if i:
+                        b.add(", ")
+                    b.add("int ")
+                    b.ident(1)
+                    b.add("[]")
+        if ctx == "multiline_definition":
+            b.add("int\tfoo(")
+            for i in range(n):
+                if i:
+                    b.add(",\n\t\t" if i == (n + 1) // 2 else ", ")
+                b.add("int ")
+                b.ident(1)
+            b.add(")\n{\n\treturn (0);\n}\n")
+            return name, b.items, [("TOO_MANY_ARGS", None, n > 4)], None
+        if ctx == "static_prototype":
+            b.add("static int\tfoo(")
+            plist()
+            b.add(");\n\n" + SIMPLE_FUNC)
+            return name, b.items, [("TOO_MANY_ARGS", None, n > 4)], None
         if ctx == "prototype":
             b.add("int\tfoo(")
             plist()
@@ -353,7 +390,14 @@ def build(limit, ctx, n, ex):
             b.add("int\tfirst(void)\n{\n\tint\ta;\n\tint\tb;\n\tint\tc;\n\tint\td;\n\tint\te;\n\n\treturn (0);\n}\n\n")
         b.add("int\tmain(void)\n{\n")
         for i in range(n):
-            b.add("\tint\t" if ctx != "with_pointers" else "\tchar\t*")
+            if ctx == "static_locals" and i % 2 == 0:
+                b.add("\tstatic int\t")
+            elif ctx == "static_locals":
+                b.add("\tint\t\t\t")
+            elif ctx == "mixed_types":
+                b.add(["\tint\t\t\t", "\tunsigned int\t", "\tchar\t\t*", "\tlong long\t"][i % 4])
+            else:
+                b.add("\tint\t" if ctx != "with_pointers" else "\tchar\t*")
             b.ident(3)
             if ctx == "with_array" and i == 1:
                 b.add("[4]")
